@@ -23,5 +23,5 @@ HARNESSES = [
 ASSUMPTIONS = ['tier S: one call of one real width-algebra function from any state word inside the stated caller contract (harness source: st_valid), widths 2..4094, at most 2 interfering replacements of the word',
                'in-flight count is defined from the documented encoding W = (0x1000 - width) + in_flight (+ width-1 when PENDING_BARRIER)',
                'barrier completion, target push and reference counting are counting stubs']
-LEVEL_TEXT = 'placeholder'
-LEVEL_NOTE = 'placeholder'
+LEVEL_TEXT = "Tier S width algebra over all state words inside the caller contracts, widths 2..4094, bounded interference: the leaving reader takes the barrier lock only if it was the last item in flight, otherwise re-drives or leaves DIRTY for the drainer (never neither); the drainer's upgrade is granted exactly when no reader is in flight and parks PENDING_BARRIER otherwise; with PENDING_BARRIER no sync/async/apply reader is admitted; apply reserve/relinquish are inverse; reader fast paths refuse queued-ahead items (shared with C02)."
+LEVEL_NOTE = "In-flight count defined from the documented encoding; the 13-bit width field is assumed not to overflow (< ~4000 over-committed sync readers); barrier hand-off over whole histories is covered only by the concurrent-queue sequences of C01's tier H (BARRIER ORDER assertion)."
